@@ -25,7 +25,11 @@ THEOREMS = ["consts_documented", "window_bound", "window_bound_fill", "seqs_dist
             "callback_at_most_once", "done_all_called", "callback_own_seq", "seq_fixed", "tries_bound",
             "sends_numbered", "send_bound", "timeout_only_after_all_tries", "no_early_retransmit",
             "fatal_raises", "fatal_raises_iter", "fatal_raises_run", "fatal_only_from_reply",
-            "retryable_ignored", "seq_injective", "callback_own_reply", "own_reply_wrap_counterexample"]
+            "retryable_ignored", "seq_injective", "callback_own_reply", "own_reply_wrap_counterexample",
+            # termination under explicit progress hypotheses about the OS
+            "terminates_on_script", "iterations_bound", "terminates_under_progress",
+            "terminates_on_script_weak", "iterations_bound_weak", "terminates_under_select",
+            "no_termination_without_progress"]
 
 RULE = ("cases = (window 1-8, tries 1-5, timeout 2-6 ticks, sequence mask 0xffff or small, 1-3 bursts of 0-40 commands with "
         "per-command extra timeouts on one connection, per-datagram outcome script drawn from {ok with latency, request/"
@@ -252,6 +256,8 @@ def eval_cases(ctx, cases):
             meta.append((case, bi, d, "model"))
             reqs.append(d["spec"])
             meta.append((case, bi, d, "spec"))
+            reqs.append(dict(d["model"], op="progress"))
+            meta.append((case, bi, d, "progress"))
             ctx.traces += 1
             ctx.tag("result_" + d["result"][0])
         small = {k: v for k, v in case.items()}
@@ -273,6 +279,28 @@ def eval_cases(ctx, cases):
                 i = next((i for i, (a, b) in enumerate(zip(me, d["events"])) if a != b), min(len(me), len(d["events"])))
                 ctx.mismatch("c06.run", "burst %d: first difference at event %d: model=%r impl=%r; results model=%r impl=%r" % (
                     bi, i, me[i:i + 2], d["events"][i:i + 2], r.get("result"), d["result"]), desc)
+        elif what == "progress":
+            # the recorded environment against the hypotheses of terminates_under_progress /
+            # terminates_under_select, and the implementation's iteration count against the proved bounds
+            n_iter = len(d["model"]["batches"])
+            if not r.get("mono"):
+                ctx.mismatch("c06.progress", "burst %d: the simulated clock went backwards" % bi, desc)
+            if r.get("iterations") != n_iter:
+                ctx.mismatch("c06.progress", "burst %d: model performs %r iterations, implementation %d" % (
+                    bi, r.get("iterations"), n_iter), desc)
+            if not r.get("weak"):
+                ctx.mismatch("c06.progress", "burst %d: the simulated select/clock do not satisfy the progress "
+                             "hypothesis (b) (weak form)" % bi, desc)
+            elif n_iter > r["bound_weak"]:
+                ctx.mismatch("c06.progress", "burst %d: %d iterations exceed the proved bound %d" % (
+                    bi, n_iter, r["bound_weak"]), desc)
+            else:
+                ctx.tag("progress_weak_holds_and_bound_met")
+            if r.get("strict"):
+                ctx.tag("progress_strict_holds")
+                if n_iter > r["bound_strict"]:
+                    ctx.mismatch("c06.progress", "burst %d: %d iterations exceed the proved bound %d" % (
+                        bi, n_iter, r["bound_strict"]), desc)
         else:
             for clause in r:
                 key = clause
